@@ -264,17 +264,45 @@ def run(prog, tier):
             src.setdefault(U(st.targets[0]), []).append(st)
     ex = loo_expander(prog, ci)
     env = {fn.args.args[1].arg: R.sym("theta")}
-    cov_loop = [l for l in fn.body if isinstance(l, ast.For) and U(l.iter) == "grad_K"]
-    mean_loop = [l for l in fn.body if isinstance(l, ast.For) and U(l.iter) == "grad_mu"]
-    if len(cov_loop) != 1 or len(mean_loop) != 1:
-        raise AnalysisError("anchor vanished: gradient loops in loo_likelihood_gradient")
-    guard(lambda: ex.run_until(fn.body, env, cov_loop[0]))
-    for lp_, elem, what, ref in ((cov_loop[0], "dK", "covariance", "cov"), (mean_loop[0], "dmu", "mean", "mean")):
+    # the per-parameter contribution of each gradient list, whether it is accumulated by a loop or by a comprehension
+    rzl = Resolver(fn, prog, c2.module, c2)
+    th_ = fn.args.args[1].arg
+    lists = {"cov": f"self.cov.covariance_and_gradients({th_}[self.cov_slice])[1]",
+             "mean": f"self.mean.mean_and_gradients({th_}[self.mean_slice])[1]"}
+    sites = {}
+    for n_ in ast.walk(fn):
+        it_, tgt_, kind_ = None, None, None
+        if isinstance(n_, ast.For):
+            it_, tgt_, kind_ = n_.iter, n_.target, "loop"
+        elif isinstance(n_, (ast.ListComp, ast.GeneratorExp)) and len(n_.generators) == 1:
+            it_, tgt_, kind_ = n_.generators[0].iter, n_.generators[0].target, "comp"
+        if it_ is None or not isinstance(tgt_, ast.Name):
+            continue
+        st_ = n_ if kind_ == "loop" else rzl.stmt_of(n_)
+        tt = str(U(rzl.term(it_, st_)))
+        for ref_, text_ in lists.items():
+            if tt == text_:
+                sites.setdefault(ref_, []).append((kind_, n_, st_, tgt_.id))
+    if any(len(sites.get(r_, [])) != 1 for r_ in lists):
+        raise AnalysisError("anchor vanished: one loop / comprehension over each gradient list in loo_likelihood_gradient "
+                            f"({ {k: len(v) for k, v in sites.items()} })")
+    first = min((sites[r_][0][2] for r_ in lists), key=lambda s_: s_.lineno)
+    guard(lambda: ex.run_until(fn.body, env, first))
+    for ref, elem, what in (("cov", "dK", "covariance"), ("mean", "dmu", "mean")):
+        kind_, node_, st_, var_ = sites[ref][0]
+        lp_ = st_
         e2 = dict(env)
-        e2[U(lp_.target)] = R.sym(elem)
+        e2[var_] = R.sym(elem)
         ex2 = loo_expander(prog, ci)
-        guard(lambda: ex2.exec_block([s for s in lp_.body if isinstance(s, ast.Assign)], e2))
-        g = e2.get("g")
+        if kind_ == "loop":
+            guard(lambda: ex2.exec_block([s for s in node_.body if isinstance(s, ast.Assign)], e2))
+            apps = [s.value.args[0] for s in node_.body if isinstance(s, ast.Expr) and isinstance(s.value, ast.Call)
+                    and isinstance(s.value.func, ast.Attribute) and s.value.func.attr == "append" and s.value.args]
+            if len(apps) != 1:
+                raise AnalysisError(f"anchor vanished: single appended contribution in the {what} gradient loop")
+            g = guard(lambda: ex2.eval(apps[0], e2))
+        else:
+            g = guard(lambda: ex2.eval(node_.elt, e2))
         Z = anf.fn_("matmul", ik_loc, R.sym(elem))
         if ref == "cov":
             Za = anf.fn_("matmul", Z, A)
